@@ -1,7 +1,325 @@
-//! C20 driver (stub: not built yet).
-use crate::trace::Args;
+//! C20 driver: dumps every derived parameter, as computed by the REAL parameter functions of
+//! yamaquasi (through the `vhook`/`vhook_params` accessors for the crate-private ones), for the
+//! whole configuration space of the property:
+//!   bit lengths 1..512 x use_double x {siqs, mpqs, qs, cls} (two shapes of n per size),
+//!   a log grid of B2 values for both stage-2 tables plus the rows themselves and the midpoints
+//!   between consecutive rows +-1 ulp (rows are *discovered* through the real selection function),
+//!   every (modulus bit length 1..512) x (power-of-two size 16..2^20) of the convolution dispatch.
+//! The driver holds no copy of any table and judges nothing: spec/params/Params.tla does.
+//! A panic inside a parameter function (e.g. an underflowing subtraction with overflow checks) is an
+//! event (`outcome`), never a failure of the driver.
 
-pub fn run(_args: &Args) -> i32 {
-    eprintln!("driver c20 not built yet");
-    2
+use bnum::cast::CastFrom;
+use serde_json::{json, Map, Value};
+
+use yamaquasi::arith_montgomery::{MInt, ZmodN};
+use yamaquasi::fbase::{self, FBase};
+use yamaquasi::{arith_fft, classgroup, mpqs, params, pollard_pm1, qsieve, siqs, Int, Uint};
+
+use crate::trace::*;
+
+const MAX_BITS: u32 = 512;
+/// Largest number of primes we are willing to enumerate to bound the largest factor-base prime.
+const MAX_ENUM: usize = 1_300_000;
+
+fn shape_n(bits: u32, shape: &str) -> Uint {
+    match shape {
+        // smallest odd number of that size (1 mod 8 from 4 bits on)
+        "lo1" => (Uint::ONE << (bits - 1)) | Uint::ONE,
+        // largest number of that size (7 mod 8 from 3 bits on)
+        "hi" => (Uint::ONE << bits) - Uint::ONE,
+        _ => unreachable!(),
+    }
+}
+
+/// calls `f`; on panic records which function failed into `obj` and returns None
+fn call<T>(obj: &mut Map<String, Value>, name: &str, f: impl FnOnce() -> T) -> Option<T> {
+    match guard(f) {
+        Ok(v) => Some(v),
+        Err(e) => {
+            if !obj.contains_key("outcome") {
+                if let Some(m) = e.as_object() {
+                    for (k, v) in m {
+                        obj.insert(k.clone(), v.clone());
+                    }
+                }
+                obj.insert("fn".into(), json!(name));
+            }
+            None
+        }
+    }
+}
+
+struct PrimeTable {
+    ps: Vec<u32>,
+}
+
+impl PrimeTable {
+    /// the k-th prime (1-based) as enumerated by the library's own `fbase::primes`
+    fn kth(&self, k: u64) -> Option<u32> {
+        if k >= 1 && (k as usize) <= self.ps.len() {
+            Some(self.ps[k as usize - 1])
+        } else {
+            None
+        }
+    }
+}
+
+/// Adds fb and the raw facts from which the spec bounds the largest factor-base prime: the fb8-th
+/// prime (fb8 = 8*ceil(fb/8) primes are kept) and the (2 fb+40)-th prime (that many are enumerated),
+/// as enumerated by the library's own `fbase::primes`; 0 = beyond the enumerated table.
+fn put_fb(obj: &mut Map<String, Value>, pt: &PrimeTable, fb: u32) {
+    obj.insert("fb".into(), du(fb as u64));
+    let fb8 = 8 * ((fb as u64 + 7) / 8);
+    obj.insert("pk1".into(), du(pt.kth(fb8).map(|p| p as u64).unwrap_or(0)));
+    obj.insert("pk2".into(), du(pt.kth(2 * fb as u64 + 40).map(|p| p as u64).unwrap_or(0)));
+    obj.insert("pi24".into(), du(pt.ps.iter().take_while(|&&p| p < 1 << 24).count() as u64));
+}
+
+fn sieve_params(out: &mut Out, profile: &str, pt: &PrimeTable) {
+    for bits in 1..=MAX_BITS {
+        for shape in ["lo1", "hi"] {
+            if bits == 1 && shape == "hi" {
+                continue;
+            }
+            let n = shape_n(bits, shape);
+            assert_eq!(n.bits(), bits);
+            for dbl in [false, true] {
+                for alg in ["siqs", "mpqs", "qs", "cls"] {
+                    let mut o = Map::new();
+                    o.insert("op".into(), json!("params"));
+                    o.insert("case".into(), json!(format!("{}/{}/{}/{}/{}", alg, bits, shape, dbl as u8, profile)));
+                    o.insert("alg".into(), json!(alg));
+                    o.insert("bits".into(), json!(bits));
+                    o.insert("shape".into(), json!(shape));
+                    o.insert("dbl".into(), json!(dbl));
+                    o.insert("profile".into(), json!(profile));
+                    o.insert("n".into(), dn(&n));
+                    match alg {
+                        "siqs" => {
+                            if let Some(fb) = call(&mut o, "siqs::fb_size", || siqs::vhook::fb_size(&n, dbl)) {
+                                put_fb(&mut o, pt, fb);
+                            }
+                            // also the public formula it is built on
+                            if let Some(v) = call(&mut o, "params::factor_base_size", || params::factor_base_size(&n)) {
+                                o.insert("fbs".into(), du(v as u64));
+                            }
+                            if let Some(v) = call(&mut o, "siqs::nfactors", || siqs::vhook::nfactors(&n)) {
+                                o.insert("nfacs".into(), du(v as u64));
+                            }
+                            if let Some(v) = call(&mut o, "siqs::a_value_count", || siqs::vhook::a_value_count(&n)) {
+                                o.insert("acount".into(), du(v as u64));
+                            }
+                            if let Some(v) = call(&mut o, "siqs::a_tolerance_divisor", || siqs::vhook::a_tolerance_divisor(&n)) {
+                                o.insert("adiv".into(), du(v as u64));
+                            }
+                            if let Some(v) = call(&mut o, "siqs::interval_size", || siqs::vhook::interval_size(&n, dbl)) {
+                                o.insert("interval".into(), du(v as u64));
+                            }
+                            if let Some(v) = call(&mut o, "siqs::large_prime_factor", || siqs::vhook::large_prime_factor(&n)) {
+                                o.insert("lpf".into(), du(v));
+                            }
+                            if let Some(v) = call(&mut o, "siqs::double_large_factor", || siqs::vhook::double_large_factor(&n)) {
+                                o.insert("dlf".into(), du(v));
+                            }
+                        }
+                        "mpqs" => {
+                            if let Some(fb) = call(&mut o, "params::mpqs_fb_size", || params::mpqs_fb_size(bits, dbl)) {
+                                put_fb(&mut o, pt, fb);
+                            }
+                            if let Some(v) = call(&mut o, "mpqs::mpqs_interval_size", || mpqs::vhook::mpqs_interval_size(&n)) {
+                                // i64 in the code, used as u32
+                                o.insert("interval_neg".into(), json!(v < 0));
+                                o.insert("interval".into(), du(v.unsigned_abs()));
+                            }
+                            if let Some(v) = call(&mut o, "mpqs::large_prime_factor", || mpqs::vhook::large_prime_factor(&n)) {
+                                o.insert("lpf".into(), du(v));
+                            }
+                            if let Some(v) = call(&mut o, "mpqs::double_large_factor", || mpqs::vhook::double_large_factor(&n)) {
+                                o.insert("dlf".into(), du(v));
+                            }
+                        }
+                        "qs" => {
+                            if let Some(fb) = call(&mut o, "params::qs_fb_size", || params::qs_fb_size(bits, dbl)) {
+                                put_fb(&mut o, pt, fb);
+                            }
+                            if let Some(v) = call(&mut o, "qsieve::large_prime_factor", || qsieve::large_prime_factor(&n)) {
+                                o.insert("lpf".into(), du(v));
+                            }
+                            // nblocks is a method of the sieve context: build one over a tiny factor base
+                            if let Some(v) = call(&mut o, "qsieve::SieveQS::nblocks", || {
+                                let fb = FBase::new(Int::cast_from(n), 8);
+                                let qs = qsieve::SieveQS::new(n, &fb, 0, dbl);
+                                qsieve::vhook::nblocks(&qs)
+                            }) {
+                                o.insert("nblocks".into(), du(v as u64));
+                            }
+                        }
+                        "cls" => {
+                            // the class group code derives everything from the (adjusted) bit size
+                            if let Some(fb) = call(&mut o, "params::clsgrp_fb_size", || params::clsgrp_fb_size(bits, dbl)) {
+                                put_fb(&mut o, pt, fb);
+                            }
+                            if let Some((ac, nf)) = call(&mut o, "classgroup::a_params", || classgroup::vhook_params::a_params(bits)) {
+                                o.insert("acount".into(), du(ac as u64));
+                                o.insert("nfacs".into(), du(nf as u64));
+                            }
+                            if let Some(v) = call(&mut o, "classgroup::interval_size", || classgroup::vhook_params::interval_size(bits)) {
+                                o.insert("interval".into(), du(v as u64));
+                            }
+                            if let Some(v) = call(&mut o, "classgroup::large_prime_factor", || classgroup::vhook_params::large_prime_factor(bits)) {
+                                o.insert("lpf".into(), du(v));
+                            }
+                            let d = -Int::cast_from(n);
+                            if let Some(v) = call(&mut o, "classgroup::double_large_factor", || classgroup::vhook_params::double_large_factor(&d)) {
+                                o.insert("dlf".into(), du(v));
+                            }
+                        }
+                        _ => unreachable!(),
+                    }
+                    out.ev(Value::Object(o));
+                }
+            }
+        }
+    }
+}
+
+fn ulp_next(x: f64) -> f64 {
+    f64::from_bits(x.to_bits() + 1)
+}
+fn ulp_prev(x: f64) -> f64 {
+    f64::from_bits(x.to_bits() - 1)
+}
+
+fn stage2(out: &mut Out, profile: &str) {
+    // requested B2 values: log grid (about 2000 points over 10 .. 3e14), then the discovered rows
+    // and the midpoints between consecutive rows, each +-1 ulp
+    let mut grid: Vec<f64> = vec![];
+    let steps = 2000;
+    let (lo, hi) = (10f64.ln(), 3e14f64.ln());
+    for i in 0..=steps {
+        grid.push((lo + (hi - lo) * i as f64 / steps as f64).exp().round());
+    }
+    grid.extend_from_slice(&[0.0, 1.0, 4.0, 1e15, 1e18, 1e300]);
+    let thr = pollard_pm1::vhook_params::multieval_threshold();
+    grid.extend_from_slice(&[ulp_prev(thr), thr, ulp_next(thr)]);
+    for table in ["ecm", "pm1"] {
+        let sel = |b2: f64| -> Result<(f64, u64, u64), Value> {
+            guard(|| {
+                if table == "ecm" {
+                    params::stage2_params(b2)
+                } else {
+                    pollard_pm1::vhook_params::stage2_params(b2)
+                }
+            })
+        };
+        // discover rows
+        let mut rows: Vec<f64> = vec![];
+        for &b in &grid {
+            if let Ok((r, _, _)) = sel(b) {
+                if r.is_finite() && r > 0.0 && !rows.contains(&r) {
+                    rows.push(r);
+                }
+            }
+        }
+        rows.sort_by(|a, b| a.total_cmp(b));
+        let mut pts = grid.clone();
+        for (i, &r) in rows.iter().enumerate() {
+            pts.extend_from_slice(&[ulp_prev(r), r, ulp_next(r)]);
+            if i + 1 < rows.len() {
+                let m = (r + rows[i + 1]) / 2.0;
+                pts.extend_from_slice(&[ulp_prev(m), m, ulp_next(m)]);
+            }
+        }
+        pts.sort_by(|a, b| a.total_cmp(b));
+        pts.dedup();
+        for (i, &b2) in pts.iter().enumerate() {
+            let mut o = Map::new();
+            o.insert("op".into(), json!("stage2"));
+            o.insert("case".into(), json!(format!("s2/{}/{}/{}", table, i, profile)));
+            o.insert("table".into(), json!(table));
+            o.insert("profile".into(), json!(profile));
+            o.insert("b2".into(), json!(format!("{:e}", b2)));
+            // whether the consumer reads (d1, d2) for this request: ECM/P+1 always, P-1 only on the
+            // polynomial-evaluation path
+            o.insert("used".into(), json!(table == "ecm" || b2 > thr));
+            match sel(b2) {
+                Ok((r, d1, d2)) => {
+                    o.insert("row".into(), json!(format!("{:e}", r)));
+                    o.insert("d1".into(), du(d1));
+                    o.insert("d2".into(), du(d2));
+                }
+                Err(e) => {
+                    for (k, v) in e.as_object().unwrap() {
+                        o.insert(k.clone(), v.clone());
+                    }
+                }
+            }
+            out.ev(Value::Object(o));
+        }
+    }
+}
+
+fn conv_dispatch(out: &mut Out, profile: &str) {
+    // The dispatch of convolve_modn is a `match` inside the function: it is observed through the
+    // event emitted right after the match.  The call is made with empty operands, so that it stops
+    // (index panic, caught) before any transform is computed.
+    for bits in 1..=MAX_BITS {
+        let n = shape_n(bits, "lo1");
+        let zn = match guard(|| ZmodN::new(n)) {
+            Ok(z) => z,
+            Err(_) => continue,
+        };
+        // sizes below 16 never reach a transform in the library (FFT thresholds are 28 and more)
+        for lg in 4..=20u32 {
+            let size = 1usize << lg;
+            yamaquasi::verif::start();
+            let r = guard(|| {
+                let mut res: [MInt; 0] = [];
+                arith_fft::convolve_modn(&zn, size, &[], &[], &mut res, 0)
+            });
+            let evs = yamaquasi::verif::stop();
+            let mut o = Map::new();
+            o.insert("op".into(), json!("conv"));
+            o.insert("case".into(), json!(format!("conv/{}/{}/{}", bits, lg, profile)));
+            o.insert("profile".into(), json!(profile));
+            o.insert("bits".into(), json!(bits));
+            o.insert("lgsize".into(), json!(lg));
+            let mut found = false;
+            for s in evs {
+                let v: Value = serde_json::from_str(&s).expect("hook event");
+                if v["op"] == "conv_dispatch" {
+                    found = true;
+                    o.insert("fsize".into(), json!(v["fsize"].as_u64().unwrap().min(1 << 30)));
+                    o.insert("logpack".into(), json!(v["logpack"].as_u64().unwrap().min(1 << 30)));
+                    o.insert("stride".into(), json!(v["stride"].as_u64().unwrap().min(1 << 30)));
+                }
+            }
+            o.insert("row".into(), json!(found));
+            if !found {
+                o.insert("fsize".into(), json!(0));
+                o.insert("logpack".into(), json!(0));
+                o.insert("stride".into(), json!(0));
+            }
+            // how the (deliberately truncated) call ended, for the record
+            o.insert("ended".into(), json!(match r {
+                Ok(_) => "returned".to_string(),
+                Err(e) => e["msg"].as_str().unwrap_or("?").chars().take(60).collect(),
+            }));
+            out.ev(Value::Object(o));
+        }
+    }
+}
+
+pub fn run(args: &Args) -> i32 {
+    let profile = arg_str(args, "profile", "release").to_string();
+    let mut out = Out::create(arg_str(args, "out", "trace.ndjson"));
+    // the library's own prime enumeration, once
+    let pt = PrimeTable { ps: fbase::primes(MAX_ENUM as u32) };
+    sieve_params(&mut out, &profile, &pt);
+    stage2(&mut out, &profile);
+    conv_dispatch(&mut out, &profile);
+    let n = out.finish();
+    println!("{}", json!({"events": n}));
+    0
 }
